@@ -249,6 +249,9 @@ func (c *Ctx) ModelCheck(module, cfg string, o tlc.Opts) *tlc.Result {
 	o.SpecDir, o.Module, o.Cfg = SpecDir(), module, cfg
 	if o.Timeout == 0 {
 		o.Timeout = 20 * time.Minute
+		if !c.Quick() {
+			o.Timeout = 60 * time.Minute // thorough configurations are sized for ~10 min on an idle 16-core machine
+		}
 	}
 	r, err := tlc.Run(o)
 	if err != nil {
